@@ -89,14 +89,14 @@ def run(ctx):
                         {"scenario": r["scenario"], "threads": r["n"], "seed": r["seed"], "round": r["round"], "module": r.get("src"), "difference": r.get("diff"),
                          "how": "harness/cmd/c05 built with -race: c05-race child -scenario %s -seed %d -n %d -rounds %d" % (r["scenario"], r["seed"], r["n"], r["round"] + 1)})
         if r.get("changed"):
-            ctx.finding("frozen-shared-value-changed:%s" % r["changed"].split(": ")[1].split(" node")[0],
+            ctx.finding("frozen-shared-value-changed:%s" % (r["changed"].split(": ")[1].split(" node")[0] if ": " in r["changed"] else r["scenario"]),
                         "scenario values with %d threads, round %d: a shared frozen value is not what it was before the threads ran -- %s" % (r["n"], r["round"], r["changed"]),
                         {"scenario": "values", "threads": r["n"], "seed": r["seed"], "round": r["round"], "module": r.get("src"), "what": r["changed"],
                          "how": "c05-race child -scenario values -seed %d -n %d -rounds %d" % (r["seed"], r["n"], r["round"] + 1)})
         for a in r.get("accepted") or []:
-            ctx.finding("frozen-value-mutated:%s" % (a if a.startswith("mscript") else a.split('"n":"')[2].split('"')[0] if a.count('"n":"') > 1 else "op"),
+            ctx.finding("frozen-value-mutated:%s" % (a if a.startswith("mscript") else ":".join(a.split(":")[:3]) if a.startswith("factory") else a.split('"n":"')[2].split('"')[0] if a.count('"n":"') > 1 else "op"),
                         "a mutator applied to a frozen shared value returned no error: %s" % a,
-                        {"scenario": "values", "threads": r["n"], "seed": r["seed"], "round": r["round"], "module": r.get("src"), "op": a})
+                        {"scenario": r["scenario"], "threads": r["n"], "seed": r["seed"], "round": r["round"], "module": r.get("src"), "op": a})
     for c in children:
         if c.get("races"):
             for site in c.get("sites") or ["?"]:
